@@ -11,12 +11,18 @@ OPCODES = ["Nop", "Call", "Resolve", "NativeCall", "Ret", "JumpIf", "JumpIfNot",
 def native_stub(ex_, st, fr, callee, args):
     """an unknown native word reached through a symbolic function pointer: any result, state untouched
     (what individual words do to the state is the subject of the per-word lemmas)"""
-    nm = ex_.fresh_name("native_result")
+    # deterministic name: two drive modes of a relational lemma must see the same (arbitrary) answer of the same word
+    nm = "native_result!%d" % len(st.frames)
     return Enum("Result<(), error::Xerr>", None, None, origin=nm, discr=z3.BitVec(nm + ".discr", 64))
 
 
 def token_location_stub(ex_, st, fr, callee, args):
-    nm = ex_.fresh_name("token_location")
+    # a pure function of the token: named after it, so that two drive modes of a relational lemma get the same location
+    from e2.summaries import canon
+    try:
+        nm = "token_location!" + str(canon(ex_, args[1]))[:80]
+    except Exception:
+        nm = ex_.fresh_name("token_location")
     return Enum("Option<lex::TokenLocation>", None, None, origin=nm, discr=z3.BitVec(nm + ".discr", 64))
 
 
